@@ -76,3 +76,20 @@ def run(ctx):
         ex = [x for x in exit_sites(v) if x["kind"] in ("accept", "may")]
         ok = bool(ex) and all(has_all(ctx.leaves(x["expr"]), ["call:*checked_div", "a1.denominator", "call:*checked_mul"]) for x in ex)
         ctx.check(ok, "C03.needed.div", v.path, "result is checked_mul(..).checked_div(denominator) with None mapped to an error", key="C03.needed.div")
+        # multiply before divide: floor(n*t/d), not floor(t/d)*n (which is lower whenever t mod d != 0)
+        MUL = ["*::checked_mul", "*::saturating_mul", "*::wrapping_mul", "*Mul::mul", "*::widening_mul", "*::overflowing_mul"]
+        DIV = ["*::checked_div", "*Div::div", "*::div_euclid", "*::checked_div_euclid", "*::div_floor", "*::div_ceil"]
+        divs = call_sites_with(ctx, v, DIV)
+        muls = call_sites_with(ctx, v, MUL)
+        def operand_has(b, pats):
+            e = call_expr(v, b)
+            return any(has_leaf(ctx.leaves(a), ["call:" + p for p in pats]) for a in e[3])
+        order_ok = bool(divs) and bool(muls) and all(operand_has(b, MUL) for b in divs) and not any(operand_has(b, DIV) for b in muls)
+        # plain operators (`a * b / c`) appear as MIR binary ops, not calls
+        from engine.mir import walk
+        for x in exit_sites(v):
+            for n in walk(x["expr"]):
+                if n[0] == "bin" and n[1].startswith("Mul"):
+                    if any(m[0] == "bin" and m[1].startswith("Div") for m in walk(n)):
+                        order_ok = False
+        ctx.check(order_ok, "C03.needed.order", v.path, "the product numerator*total is formed before the division by the denominator (floor(n*t/d))", key="C03.needed.order")
